@@ -237,7 +237,9 @@ func refStages(o ordMap, inv uint64, s bigslice.Slice, shuffled bool, out map[st
 		// the reused tasks themselves: described by the graph they were compiled from
 		all, _ := reach(rt)
 		for _, t := range all {
-			out[stripNamer(o.normOp(t.Name.Op))] = true
+			if producerClass(t) != "result-reshuffle" {
+				out[stripNamer(o.normOp(t.Name.Op))] = true
+			}
 		}
 		return
 	}
